@@ -302,12 +302,13 @@ static int get_packets(EbComponentType *h, int max, int blocking, int *eos, void
     return got;
 }
 
-typedef struct { int w, h, enc_mode, lp, frames, hierarchical_levels, intra_period, recon, lad; } EncCfg;
+typedef struct { int w, h, enc_mode, lp, frames, hierarchical_levels, intra_period, recon, lad, scm_plus1; } EncCfg;   /* scm_plus1: 0 = library default, else screen_content_mode + 1 */
 static void apply_cfg(EbSvtAv1EncConfiguration *c, const EncCfg *E) {
     c->source_width = E->w; c->source_height = E->h; c->encoder_bit_depth = 8; c->enc_mode = (int8_t)E->enc_mode;
     c->logical_processors = E->lp; c->recon_enabled = E->recon;
     if (E->hierarchical_levels >= 0) c->hierarchical_levels = E->hierarchical_levels;
     if (E->intra_period > -3) c->intra_period_length = E->intra_period;
     if (E->lad >= 0) c->look_ahead_distance = E->lad;
+    if (E->scm_plus1 > 0) c->screen_content_mode = (uint32_t)(E->scm_plus1 - 1);
 }
 #endif
